@@ -1,1 +1,23 @@
-fn main() { println!("svharness ok"); }
+//! Smoke test of the Sway-on-VM runner.
+use svharness::swayrun::*;
+fn main() {
+    let d = scratch_dir("probe");
+    let src = r#"library;
+#[test]
+fn t_add() { let a: u64 = 40; let b: u64 = 2; log(a + b); }
+#[test(should_revert)]
+fn t_ovf() { let a: u8 = 255; let b: u8 = 1; log(a + b); }
+#[test]
+fn t_enc() { let v: (u8, bool, u64) = (7u8, true, 9u64); log(v); }
+"#;
+    write_pkg(&d, "probe", src, true, "").unwrap();
+    let t0 = std::time::Instant::now();
+    for release in [false, true] {
+        match build_and_test(&d, release) {
+            Ok((outs, _)) => for o in outs { println!("release={release} {:?}", o); },
+            Err(e) => println!("ERR {e:#}"),
+        }
+        println!("elapsed {:?}", t0.elapsed());
+    }
+    let _ = std::fs::remove_dir_all(&d);
+}
